@@ -78,6 +78,7 @@ pub fn run(ctx: &mut Ctx) {
     let alpha: [&str; 8] = ["a", "A", "1", "-", "_", ".", "\\", "é"];
     let lmax = if ctx.slow_tool { 2 } else { ctx.tier.pick(7usize, 8usize) };
     if ctx.family_active("strings") {
+        ctx.set_enumerated(true);
         let mut base = 0u64;
         for l in 0..=lmax {
             let total = 8u64.pow(l as u32);
@@ -94,6 +95,7 @@ pub fn run(ctx: &mut Ctx) {
             }
             base += total;
         }
+        ctx.set_enumerated(false);
         ctx.sample("strings", || json!({"alphabet": alpha, "max_len": lmax}));
     }
     if ctx.family_active("labels") {
